@@ -22,6 +22,7 @@ From Coupe Require Import Lib.Prelude Lib.SFloat Lib.Report.
 From Coupe Require Import Model.RandomPart Run.RunC01 Proofs.C01Proofs.
 From Coupe Require Proofs.C01Collect.
 From Coupe Require Properties.C03 Properties.C09 Properties.C10 Properties.C13.
+From Coupe Require Proofs.RcbBox Proofs.MultiJaggedTotal.
 From Coupe Require Model.Rcb Proofs.RcbInst Model.SfcPart Proofs.ZCurveProofs
   Model.MultiJagged Proofs.MultiJaggedProofs Model.NumPart Model.Greedy Model.Kk Proofs.NumPartLemmas Lib.Sorting
   Model.Ckk Model.GridRcb Proofs.GridRcbTree Proofs.GridRcbMedian Proofs.GridRcbFloat Run.RunC11.
@@ -48,27 +49,21 @@ Theorem C01_rcb_range : forall fuel sched D k tol pts ws p0 p,
 Proof. exact RcbC.rcb_range. Qed.
 Print Assumptions C01_rcb_range.
 
-(* Under the contract (matching lengths, D >= 1 coordinates per point whose
-   binary32 images are not NaN) and the decidable premise [box_ok32] the model
-   returns Ok for EVERY schedule -- no panic, no OutOfFuel -- with one id below
-   2^iter_count per point.  The float hypotheses of the cut search (a bounded
-   order embedding of the finite binary32 values, closed under `min/2 + max/2`)
-   are now DISCHARGED in C03 with Flocq (classical-reals axioms); the fuel
-   bound 2^33 is a termination bound, not a tight one (real searches need
-   < 300 iterations).
-   Still PARTIAL, because one premise is not part of the usage contract:
-   [Rcb.box_ok32 D pts ws = true] -- the root bounding box (f64 min/max of the
-   points, then `as f32`) has finite canonical bounds that enclose the binary32
-   coordinates.  It is evaluated on every case by the run glue of C03/C04 but
-   not proved from "finite f64 coordinates": (i) it needs monotonicity of
-   `as f32` over the f64 fold of the box; (ii) it is FALSE for finite f64
-   coordinates beyond the binary32 range (their image is +-inf): there
-   termination and panic-freedom are only observed by the runs, not proved.
-   Also: weights are i64 (Z); f64 weights are run integer-valued only. *)
+(* Matching lengths, D >= 1 coordinates per point, every coordinate a finite
+   f64 value whose binary32 image is finite ([RcbBox.coords_in_f32_range], the
+   contract of C03/C04): the model returns Ok for EVERY schedule -- no panic, no
+   OutOfFuel -- with one id below 2^iter_count per point.  The float hypotheses
+   of the cut search and the former premise box_ok32 are both DISCHARGED in C03
+   with Flocq (classical-reals axioms); the fuel bound 2^33 is a termination
+   bound, not a tight one (real searches need < 300 iterations).
+   Still named PARTIAL, for one gap with respect to the property's contract
+   ("finite coordinates"): finite f64 coordinates BEYOND the binary32 range
+   (|x| > f32::MAX, image +-inf) are outside the premise; there termination
+   and panic-freedom are observed by the runs of C03, not proved.  Weights
+   are i64 (Z); f64 weights are run integer-valued only. *)
 Theorem C01_rcb_partial : forall fuel (sched : N -> nat -> Rcb.stree) D k tol pts ws p0,
   (0 < D)%nat -> length ws = length p0 -> length pts = length p0 ->
-  Forall (fun pt => length pt = D) pts ->
-  Coupe.Proofs.RcbBox.coords_in_f32_range pts ->
+  Forall (fun pt => length pt = D) pts -> RcbBox.coords_in_f32_range pts ->
   Z.of_nat fuel > 2 ^ 33 ->
   exists p, C03.rcb_impl fuel sched D k tol pts ws p0 = Ok p
             /\ length p = length pts /\ Forall (fun i => (i < 2 ^ N.of_nat k)%N) p.
@@ -76,19 +71,19 @@ Proof. exact RcbC.rcb_collect. Qed.
 Print Assumptions C01_rcb_partial.
 
 (* Rib = the same function applied to the points rotated into the inertia
-   frame.  PARTIAL for the same reason as Rcb ([box_ok32] of the rotated
-   points), and additionally: the rotation (nalgebra's eigen-decomposition and
-   Householder reflection) is not modelled; [rotated] is the array recorded by
-   the `rib_points` hook, so the statement is about Rib given ANY rotated point
-   set.  In particular it says nothing about the rotation step itself, which
-   panics on finite coordinates of magnitude >= ~1e154 (inertia matrix
-   overflows f64: open known finding obb-coordinate-overflow of this check;
-   the same step precedes HilbertCurve and ZCurve, whose theorems below take
-   its outputs -- curve indices, quadrant function -- as data). *)
+   frame.  PARTIAL for the same reason as Rcb (rotated coordinates within the
+   binary32 range), and additionally: the rotation (nalgebra's
+   eigen-decomposition and Householder reflection) is not modelled; [rotated]
+   is the array recorded by the `rib_points` hook, so the statement is about
+   Rib given ANY rotated point set.  In particular it says nothing about the
+   rotation step itself, which panics on finite coordinates of magnitude >=
+   ~1e154 (inertia matrix overflows f64: open known finding
+   obb-coordinate-overflow of this check; the same step precedes HilbertCurve
+   and ZCurve, whose theorems below take its outputs -- curve indices, quadrant
+   function -- as data). *)
 Theorem C01_rib_partial : forall fuel (sched : N -> nat -> Rcb.stree) D k tol rotated ws p0,
   (0 < D)%nat -> length ws = length p0 -> length rotated = length p0 ->
-  Forall (fun pt => length pt = D) rotated ->
-  Coupe.Proofs.RcbBox.coords_in_f32_range rotated ->
+  Forall (fun pt => length pt = D) rotated -> RcbBox.coords_in_f32_range rotated ->
   Z.of_nat fuel > 2 ^ 33 ->
   exists p, C03.rcb_impl fuel sched D k tol rotated ws p0 = Ok p
             /\ length p = length rotated /\ Forall (fun i => (i < 2 ^ N.of_nat k)%N) p.
@@ -164,8 +159,8 @@ Print Assumptions C01_zcurve_3d.
    Ulps epsilon included, in particular [RunC11.F64impl], the arithmetic the
    runs of C11 select from the source (C01_multijagged_range_f64impl below) --:
    IF the model returns Ok, one id < part_count has been written per element.  What is missing:
-   that the binary64 model does return -- no-panic is proved for exact
-   arithmetic only (below); it would need monotonicity of the f64 cuts. *)
+   that the binary64 model does return: see C01_multijagged_f64_partial (Ok
+   given monotone cuts) and C01_multijagged_panic_sites_partial below. *)
 Theorem C01_multijagged_range_partial :
   forall (A : MultiJagged.arith) (D npts : nat) (wts : list (MultiJagged.num A)) sorter blk cxlt root ord (k : N) (m : nat) p0 p,
   MultiJaggedProofs.root_ok root -> MultiJaggedProofs.sorter_ok sorter cxlt ->
@@ -187,6 +182,42 @@ Theorem C01_multijagged_range_f64impl_partial :
 Proof. exact (MjC.mj_range RunC11.F64impl). Qed.
 Print Assumptions C01_multijagged_range_f64impl_partial.
 
+(* For EVERY arithmetic, inside the contract (weights and array of the right
+   length, D >= 1): the model returns Ok or stops at panic site 4 (`ret[ret.len()-1]`
+   on an empty ret: a first threshold compares below zero) or 5 (`*pos -
+   drained_count` underflows: decreasing split positions); every other panic
+   site, every error value and fuel exhaustion are unreachable. *)
+Theorem C01_multijagged_panic_sites_partial :
+  forall (A : MultiJagged.arith) D npts (wts : list (MultiJagged.num A)) sorter blk cxlt root ord (k : N) (m : nat) p0,
+  MultiJaggedProofs.root_ok root -> MultiJaggedProofs.sorter_ok sorter cxlt ->
+  (1 <= k)%N -> (k < 2 ^ 60)%N -> (1 <= m)%nat -> (1 <= D)%nat -> length wts = npts -> length p0 = npts ->
+  (forall e, MultiJagged.multi_jagged A D npts wts sorter blk root ord k m p0 <> Err e)
+  /\ MultiJagged.multi_jagged A D npts wts sorter blk root ord k m p0 <> OutOfFuel
+  /\ (forall s, MultiJagged.multi_jagged A D npts wts sorter blk root ord k m p0 = Panic s -> (s = 4 \/ s = 5)%N).
+Proof. exact MjC.mj_panic_sites. Qed.
+Print Assumptions C01_multijagged_panic_sites_partial.
+
+(* binary64 with either Ulps epsilon (F64eps eps; F64 = F64eps 0, hence
+   RunC11.F64impl), weights that are not negative: site 4 is excluded by C11
+   (sign bookkeeping of SpecFloat), so the model returns Ok with one id <
+   part_count per element GIVEN the single named premise
+   [MultiJaggedTotal.mono_cuts]: the split positions of every call of
+   compute_split_positions are non-decreasing.
+   PARTIAL: [mono_cuts] is not proved for binary64 (it depends on float facts
+   listed in docs/C11.md: the refinements of consecutive thresholds sum
+   different associations of the same prefix). *)
+Theorem C01_multijagged_f64_partial :
+  forall eps D npts wts sorter blk cxlt root ord (k : N) (m : nat) p0,
+  MultiJaggedProofs.root_ok root -> MultiJaggedProofs.sorter_ok sorter cxlt ->
+  MultiJaggedProofs.ord_ok ord (N.to_nat k) ->
+  (1 <= k)%N -> (k < 2 ^ 60)%N -> (1 <= m)%nat -> (1 <= D)%nat ->
+  length wts = npts -> length p0 = npts -> Forall MultiJaggedTotal.notneg wts ->
+  MultiJaggedTotal.mono_cuts (MultiJagged.F64eps eps) npts wts blk ->
+  exists p, MultiJagged.multi_jagged (MultiJagged.F64eps eps) D npts wts sorter blk root ord k m p0 = Ok p
+            /\ length p = npts /\ Forall (fun x => (x < k)%N) p.
+Proof. exact MjC.mj_collect_f64. Qed.
+Print Assumptions C01_multijagged_f64_partial.
+
 (* PARTIAL (2): at exact arithmetic (what the code computes when no f64
    operation rounds; weights >= 0) the model returns Ok -- no panic site is
    reachable, and the model has no loop on fuel -- with every id < part_count. *)
@@ -204,7 +235,9 @@ Print Assumptions C01_multijagged_exact_partial.
 (* ------------------------------------------------------------------ Greedy *)
 
 (* matching lengths, part_count >= 1, ANY integer weights: Ok (the model has no
-   loop on fuel and no reachable panic site), one id < part_count per element *)
+   loop on fuel and no reachable panic site), one id < part_count per element.
+   (C12 also has a generic-arithmetic model, C12_greedy_is_lpt_generic, with an
+   f64 instance under a named premise; it is not restated here.) *)
 Theorem C01_greedy : forall ws k p0, length ws = length p0 -> (1 <= k)%nat ->
   exists p, Greedy.greedy ws k p0 = Ok p /\ length p = length p0
             /\ Forall (fun x => (x < N.of_nat k)%N) p.
@@ -255,10 +288,12 @@ Proof. exact GridC.grid_collect. Qed.
 Print Assumptions C01_grid_rcb_partial.
 
 (* PARTIAL (2): the premise on the thresholds is a theorem (Flocq; classical-reals
-   axioms) for the totals [total_ok] covers: i64 totals below 2^46, and exact
-   dyadic f64 weights z*2^-k (k <= 1000) with z-total below 2^53.  What is
-   missing with respect to the property's contract ("sums that do not
-   overflow"): i64 totals in [2^46, 2^63); arbitrary (non-dyadic-exact) f64 sums. *)
+   axioms) for the totals [total_ok] covers: EVERY i64 total below 2^63 (the
+   whole of "sums that do not overflow"), and exact dyadic f64 weights z*2^-k
+   (k <= 1000) with z-total below 2^53.  The i64 instances are stated
+   separately below (C01_grid_rcb_2d_i64 / _3d_i64: nothing missing).  What is
+   missing here, for f64 weights: sums that are not exact (arbitrary f64
+   weights are not modelled). *)
 Theorem C01_grid_rcb_2d_partial : forall fuel T fw w h ws k,
   (1 <= w)%nat -> (1 <= h)%nat -> length ws = (w * h)%nat -> Forall (fun x => 0 <= x) ws -> GridRcbFloat.total_ok fw (sumZ ws) ->
   (w < 2 ^ fuel)%nat -> (h < 2 ^ fuel)%nat ->
@@ -276,6 +311,27 @@ Theorem C01_grid_rcb_3d_partial : forall fuel T fw w h d ws k,
 Proof. exact GridC.grid_collect_3d. Qed.
 Print Assumptions C01_grid_rcb_3d_partial.
 
+(* i64 weights: the whole contract -- sides >= 1, weights >= 0, total below 2^63
+   -- for every pool size and iter_count; nothing missing (classical-reals
+   axioms through C10's threshold theorem; the range and termination part does
+   not depend on which balance band the thresholds satisfy). *)
+Theorem C01_grid_rcb_2d_i64 : forall fuel T w h ws k,
+  (1 <= w)%nat -> (1 <= h)%nat -> length ws = (w * h)%nat -> Forall (fun x => 0 <= x) ws -> sumZ ws < 2 ^ 63 ->
+  (w < 2 ^ fuel)%nat -> (h < 2 ^ fuel)%nat ->
+  exists ids, C10.gridrcb_impl fuel T GridRcb.I64 [w; h] ws k (w * h) = Ok ids
+              /\ length ids = (w * h)%nat /\ Forall (fun q => (q < 2 ^ N.of_nat k)%N) ids.
+Proof. exact (fun fuel T => GridC.grid_collect_2d fuel T GridRcb.I64). Qed.
+Print Assumptions C01_grid_rcb_2d_i64.
+
+Theorem C01_grid_rcb_3d_i64 : forall fuel T w h d ws k,
+  (1 <= w)%nat -> (1 <= h)%nat -> (1 <= d)%nat -> length ws = (w * h * d)%nat ->
+  Forall (fun x => 0 <= x) ws -> sumZ ws < 2 ^ 63 ->
+  (w < 2 ^ fuel)%nat -> (h < 2 ^ fuel)%nat -> (d < 2 ^ fuel)%nat ->
+  exists ids, C10.gridrcb_impl fuel T GridRcb.I64 [w; h; d] ws k (w * h * d) = Ok ids
+              /\ length ids = (w * h * d)%nat /\ Forall (fun q => (q < 2 ^ N.of_nat k)%N) ids.
+Proof. exact (fun fuel T => GridC.grid_collect_3d fuel T GridRcb.I64). Qed.
+Print Assumptions C01_grid_rcb_3d_i64.
+
 (* ------------------------------------------------------------------ Random *)
 Theorem C01_random : forall k draws, (1 <= k)%N ->
   exists p, random_part k draws = Ok p /\ length p = length draws /\ Forall (fun x => (x < k)%N) p.
@@ -287,14 +343,15 @@ Example C01_nonvacuous : random_part 3 [7;8;9;10]%N = Ok [1;2;0;1]%N.
 Proof. reflexivity. Qed.
 
 (* the hypotheses of C01_rcb_partial are satisfiable by a non-trivial input:
-   the doc example of Rcb (4 points, 2 iterations); box_ok32 evaluates to true *)
+   the doc example of Rcb (4 points, 2 iterations) *)
 Definition ex_pts : list (list spec_float) := map (map f64_of_Z) [[1; 1]; [-1; 1]; [1; -1]; [-1; -1]]%Z.
 Example C01_nonvacuous_rcb_hyps :
-  RcbInst.coords_ok ex_pts /\ Forall (fun pt => length pt = 2%nat) ex_pts
-  /\ Rcb.box_ok32 2 ex_pts [1; 1; 1; 1] = true
+  RcbBox.coords_in_f32_range ex_pts /\ Forall (fun pt => length pt = 2%nat) ex_pts
   /\ C03.rcb_impl 400 Rcb.seq_sched 2 2 (f64_of_bits 4587366580439587226%N) ex_pts [1; 1; 1; 1] [9; 9; 9; 9]%N
      = Ok [3; 1; 2; 0]%N.
-Proof. split; [repeat constructor|]. split; [repeat constructor|]. split; vm_compute; reflexivity. Qed.
+Proof.
+  split; [repeat constructor|]. split; [repeat constructor|]. vm_compute; reflexivity.
+Qed.
 
 (* runs of the other models inside their contracts: more parts than points
    (ZCurve), one heavy element (Greedy, KarmarkarKarp), a quantile search *)
